@@ -76,6 +76,9 @@ OpDecodeInto(slot, syn, bytes) == [a |-> "DecodeInto", slot |-> slot, syn |-> sy
 OpEncodeCb(slot, syn, failat) == [a |-> "EncodeCb", slot |-> slot, syn |-> syn, failat |-> failat]  \* asn_encode, callback failing at its failat-th call
 \* asn_encode through a callback failing at its k-th call only ("once") or from its k-th call on ("from"), for every k
 OpEncodeCbSweep(slot, syn, mode) == [a |-> "EncodeCbSweep", slot |-> slot, syn |-> syn, mode |-> mode]
+\* C14: the call repeated with the k-th allocation of the library failing, for every k; whatever it returns is released
+OpAllocSweepEnc(slot, syn) == [a |-> "AllocSweepEnc", slot |-> slot, syn |-> syn]
+OpAllocSweepDec(syn, bytes) == [a |-> "AllocSweepDec", syn |-> syn, bytes |-> bytes]      \* bytes: a valid encoding of the session value
 OpEncodeBuf(slot, syn, rel) == [a |-> "EncodeBuf", slot |-> slot, syn |-> syn, rel |-> rel]          \* asn_encode_to_buffer, size relative to the full length
 OpBuildZero(slot) == [a |-> "BuildZero", slot |-> slot]     \* a zero-initialised structure (CHOICE unselected, members absent)
 \* the octets another build of the same module (other code-generation options, C13) produced for the
@@ -139,7 +142,7 @@ GenObs == [bytes |-> OpaqueWire, consumed |-> 0, allocfailed |-> 0, rc |-> "FAIL
 Vouched(o) == o.st = "val" /\ (o.sess \/ (~o.seen /\ Valid(RawEnv, TypeOf(sc), o.v)))
 \* did an armed allocation failure fire inside this call?  (logged by the allocator wrapper)
 Fired(obs) == fault > 0 /\ obs.allocfailed > 0
-Lib(op) == op.a \in {"Encode", "EncodeCb", "EncodeBuf", "EncodeCbSweep", "Decode", "DecodeLit", "DecodeAny", "DecodeInto", "DecodeCall",
+Lib(op) == op.a \in {"Encode", "EncodeCb", "EncodeBuf", "EncodeCbSweep", "AllocSweepEnc", "AllocSweepDec", "Decode", "DecodeLit", "DecodeAny", "DecodeInto", "DecodeCall",
                      "Free", "Reset", "Print", "Check", "Compare"}
 \* what a decode leaves in the slot when the specification cannot predict it: the logged value if
 \* the decoder said OK and the projection is well-formed, else an allocated structure of unknown content
@@ -166,7 +169,8 @@ Step(obs) ==
           [] op.a = "BuildZero" -> obj' = [obj EXCEPT ![op.slot] = IF obs.bad THEN BadObj ELSE RawObj] /\ UNCHANGED <<wire, dec>>
           [] op.a = "Arm" -> UNCHANGED <<obj, wire, dec>>
           [] op.a = "Adopt" -> wire' = [wire EXCEPT ![op.syn] = op.bytes] /\ UNCHANGED <<obj, dec>>
-          [] op.a \in {"Check", "Print", "EncodeCb", "EncodeBuf", "EncodeCbSweep"} -> obj[op.slot].st # "none" /\ UNCHANGED <<obj, wire, dec>>
+          [] op.a \in {"Check", "Print", "EncodeCb", "EncodeBuf", "EncodeCbSweep", "AllocSweepEnc"} -> obj[op.slot].st # "none" /\ UNCHANGED <<obj, wire, dec>>
+          [] op.a = "AllocSweepDec" -> UNCHANGED <<obj, wire, dec>>
           [] op.a = "Encode" -> IF Vouched(obj[op.slot])
                                 THEN Encode(op, obs.bytes)
                                 ELSE \* a structure the specification does not vouch for: the result is only logged
@@ -231,6 +235,19 @@ StrictFaults(op, ev) ==
          ELSE When(ev.ret # Len(ev.bytes), "ret-differs")
               \cup When(ev.ret <= 0 /\ op.syn # "OER", "empty-encoding")
               \cup When(ev.bytes # EncodeWire(op, ev.bytes), "bytes-differ")
+    [] op.a = "AllocSweepEnc" ->
+         IF obj[op.slot].st = "none" THEN {"no-object"}
+         ELSE IF ev.ret0 < 0 THEN When(Vouched(obj[op.slot]), "encode-failed")
+         ELSE When(\E i \in DOMAIN ev.runs : ev.runs[i].ret < -1, "bad-return")
+              \cup When(\E i \in DOMAIN ev.runs : ev.runs[i].ret < 0 /\ ev.runs[i].buf, "buffer-returned-on-failure")
+              \cup When(\E i \in DOMAIN ev.runs : ~ev.runs[i].fired /\ ev.runs[i].ret # ev.ret0, "result-differs-without-failure")
+              \cup When(\E i \in DOMAIN ev.runs : ev.runs[i].leak # 0, "allocation-failure-leaks")
+    [] op.a = "AllocSweepDec" ->
+         IF ev.rc # "OK" THEN {"rc-not-ok"}
+         ELSE When(ev.consumed # Len(op.bytes), "consumed-differs")
+              \cup When(\E i \in DOMAIN ev.runs : ev.runs[i].rc \notin {"OK", "FAIL", "WMORE"}, "bad-rc")
+              \cup When(\E i \in DOMAIN ev.runs : ~ev.runs[i].fired /\ ev.runs[i].rc # "OK", "result-differs-without-failure")
+              \cup When(\E i \in DOMAIN ev.runs : ev.runs[i].leak # 0, "allocation-failure-leaks")
     [] op.a = "EncodeCbSweep" ->
          \* C07 for every callback index: a run whose callback failed reports -1 / EIO; a run whose callback was never
          \* asked to fail (the failing index lies beyond its calls) reports the undisturbed size; no run leaves a block behind
